@@ -288,6 +288,8 @@ PROPS['C03'] = dict(
 def oracle_c05(res, i):
     cmd = res['script'][i].split()
     out = res['impl'][i]
+    if cmd[0] == 'dmgsweep' and not out.startswith('sweep ok'):
+        return f'MISMATCH values do not round-trip once the index is regenerated from the blob: {out}'
     if cmd[0] == 'flipsweep' and not out.startswith('sweep ok'):
         return f'MISMATCH altered data bytes: {out}'
     if cmd[0] in ('r', 'ram') and ':?' in out:
@@ -326,7 +328,7 @@ def bytes_features(lines):
 
 PROPS['C05'] = dict(
     gen=lambda rng, tier: gen.bytes_scenario(rng, size=tier),
-    p_cmds={'r', 'ram', 'flipsweep', 'w'},
+    p_cmds={'r', 'ram', 'flipsweep', 'dmgsweep', 'w'},
     oracle_cmds={'r', 'ram', 'states'}, py_oracle=oracle_c05,
     count={'quick': 48, 'thorough': 400}, timeout=1800,
     nontrivial=lambda lines: len({f for f in bytes_features(lines) if 'record' in f or 'len 0' in f}) >= 2,
@@ -608,9 +610,9 @@ def filter_features(lines):
 
 PROPS['C10'] = dict(
     gen=lambda rng, tier: gen.filter_scenario(rng, size=tier),
-    p_cmds={'cf', 'cfs', 'c', 'bloom', 'bloom2'},
-    oracle_cmds={'cf', 'cfs', 'c', 'states'},
-    impl_only_cmds={'cf', 'cfs'},      # false positives are allowed; only the Spec oracle (no false negative) judges them
+    p_cmds={'cf', 'cfs', 'gfc', 'c', 'bloom', 'bloom2'},
+    oracle_cmds={'cf', 'cfs', 'gfc', 'c', 'states'},
+    impl_only_cmds={'cf', 'cfs', 'gfc'},      # false positives are allowed; only the Spec oracle (no false negative) judges them
     count={'quick': 120, 'thorough': 1500},
     nontrivial=lambda lines: any(l.startswith('offload') for l in lines) or any(l.startswith('restore_active') for l in lines),
     features=filter_features,
